@@ -410,8 +410,14 @@ LoopAddPacketR(t, p) ==
           ELSE Cur)
 
 \* ---- packet iterators (C06) ----
+\* Only one iterator per managed CIF: while one is open, a further request is refused with CIF_ERROR and - like every
+\* refused call - changes nothing; in particular it leaves the open iterator and what was done through it alone.
 GetPacketsR(t) ==
-    IF ~(HeldL(t) /\ ~Busy(hl[t].cif)) THEN Off ELSE
+    IF ~HeldL(t) THEN Off ELSE
+    IF Busy(hl[t].cif) THEN
+        On([op |-> "get_packets", loop |-> t, stale |-> StaleL(t), itr |-> "second", cif |-> hl[t].cif,
+            rc |-> IF LoopExists(hl[t].cif, hl[t].cid, hl[t].num) THEN ERROR ELSE INVALID_HANDLE], Cur)
+    ELSE
     LET h == hl[t]  c == h.cif
         ex == LoopExists(c, h.cid, h.num)
         l == LoopOf(c, h.cid, h.num)
